@@ -21,6 +21,7 @@ structure Case where
   roots : List Nat
   events : List (Char × Nat)
   rc : Nat
+  query : Bool := false   -- `plz query deps`: NeedBuild is off, only what packages subinclude is built (forceBuild)
 
 def parseInts (s : String) : Option (List Nat) := if s = "-" || s = "" then some [] else (s.splitOn ",").mapM String.toNat?
 
@@ -75,17 +76,17 @@ def parseCase (line : String) : Option Case := do
   let rc ← (← field kv "rc").toNat?
   let n := deps.length
   if roots.isEmpty || roots.any (· ≥ n) || deps.any (·.any (· ≥ n)) || ev.any (·.2 ≥ n) then none
-  pure ⟨deps, roots, ev, rc⟩
+  pure ⟨deps, roots, ev, rc, (field kv "q").getD "0" == "1"⟩
 
 /-- the wait loop as extracted from /repo on this run (none for the pinned code) -/
 def waitSkipRank : Option Nat := Facts.skipOf PlzVerif.Generated.C04.waitSkip
 
-def cfgOf (c : Case) : Cfg := ⟨c.deps.length, fun t => (c.deps[t]?).getD [], true⟩
+def cfgOf (c : Case) : Cfg := { n := c.deps.length, deps := fun t => (c.deps[t]?).getD [], needBuild := !c.query }
 
 def findIdx (n : Nat) (p : Nat → Bool) : Option Nat := (List.range n).find? p
 
 /-- the next action on the way to `build.Build(t)` starting, or `none` if stuck / `some none` if already building -/
-def nextToStart (s : St) (t : Nat) : Option (Option Action) :=
+def nextToStart (force : Bool) (s : St) (t : Nat) : Option (Option Action) :=
   match findIdx s.nextW (fun w => s.ws w == some ⟨t, .building⟩) with
   | some _ => some none
   | none =>
@@ -97,17 +98,17 @@ def nextToStart (s : St) (t : Nat) : Option (Option Action) :=
       | none =>
         match findIdx s.nextQ (fun i => match s.qs i with | some q => q.t == t && q.building && q.ph != .done | none => false) with
         | some i => some (some (.queuer i))
-        | none => if s.st t == .inactive || s.st t == .semiactive then some (some (.activate t false)) else none
+        | none => if s.st t == .inactive || s.st t == .semiactive then some (some (.activate t force)) else none
 
-def driveStart (c : Cfg) (t : Nat) : Nat → St → Option St
+def driveStart (c : Cfg) (force : Bool) (t : Nat) : Nat → St → Option St
   | 0, _ => none
   | f + 1, s =>
-    match nextToStart s t with
+    match nextToStart force s t with
     | none => none
     | some none => some s
     | some (some a) =>
       match fireG c waitSkipRank s a with
-      | some s' => driveStart c t f s'
+      | some s' => driveStart c force t f s'
       | none => none
 
 def finishWorker (c : Cfg) (s : St) (t : Nat) (ok : Bool) : Option St := do
@@ -126,7 +127,8 @@ def replay (cs : Case) : String :=
     | (k, t) :: r, pos, s =>
       if k == 'S' then
         if s.starts t != 0 then .error s!"rejected at {pos}: second start of {t}" else
-        match driveStart c t fuel s with
+        -- with NeedBuild off a command runs only because its target was forced (a subinclude, or a dependency of one)
+        match driveStart c cs.query t fuel s with
         | some s' => go r (pos + 1) s'
         | none => .error s!"rejected at {pos}: start of {t} is not enabled"
       else if k == 'E' || k == 'F' then
